@@ -271,3 +271,73 @@ pub fn block_on<F: std::future::Future>(f: F) -> F::Output {
         assert!(spins < 10_000_000, "block_on: future never completes");
     }
 }
+
+// ---------------------------------------------------------------------------------------------
+// generator: all WELL-FORMED postfix token sequences of an exact length (the stack never
+// underflows and ends at a target depth), densely indexed by counting (no storage).
+
+pub mod wf {
+    #[derive(Clone)]
+    pub struct Class {
+        pub tokens: Vec<&'static str>,
+        /// operands the token pops
+        pub need: u32,
+        /// net change of the stack depth
+        pub delta: i32,
+    }
+    #[derive(Clone)]
+    pub struct WellFormed {
+        classes: Vec<Class>,
+        len: usize,
+        /// n[r][d]: number of sequences of r tokens that lead from depth d to the target depth
+        n: Vec<Vec<u64>>,
+    }
+    impl WellFormed {
+        pub fn new(classes: Vec<Class>, len: usize, target: u32) -> WellFormed {
+            let maxd = len + 2;
+            let mut n = vec![vec![0u64; maxd + 1]; len + 1];
+            n[0][target as usize] = 1;
+            for r in 1..=len {
+                for d in 0..maxd {
+                    let mut s = 0u64;
+                    for c in &classes {
+                        let nd = d as i64 + c.delta as i64;
+                        if d as u32 >= c.need && nd >= 0 && (nd as usize) <= maxd {
+                            s = s.checked_add((c.tokens.len() as u64).checked_mul(n[r - 1][nd as usize]).expect("wf: count overflow")).expect("wf: count overflow");
+                        }
+                    }
+                    n[r][d] = s;
+                }
+            }
+            WellFormed { classes, len, n }
+        }
+        pub fn count(&self) -> u64 {
+            self.n[self.len][0]
+        }
+        pub fn unrank(&self, mut idx: u64) -> Vec<&'static str> {
+            assert!(idx < self.count(), "wf: index out of range");
+            let mut out = Vec::with_capacity(self.len);
+            let mut d = 0usize;
+            'pos: for pos in 0..self.len {
+                let r = self.len - pos;
+                for c in &self.classes {
+                    let nd = d as i64 + c.delta as i64;
+                    if (d as u32) < c.need || nd < 0 {
+                        continue;
+                    }
+                    let per = self.n[r - 1][nd as usize];
+                    let block = c.tokens.len() as u64 * per;
+                    if idx < block {
+                        out.push(c.tokens[(idx / per) as usize]);
+                        idx %= per;
+                        d = nd as usize;
+                        continue 'pos;
+                    }
+                    idx -= block;
+                }
+                unreachable!("wf: unrank fell through");
+            }
+            out
+        }
+    }
+}
